@@ -8,7 +8,7 @@ func init() {
 	add(Spec{
 		PropSpec: vlib.PropSpec{
 			ID: "C17", Level: "exploration",
-			Rule:        "laws phase: per round a pool of 200 endpoints over 13 endpoint types (registered + unregistered, negative, >32bit) with byte strings of length 0..16 generated to share prefixes, differ only in length / trailing zeros / one bit / type; all 40 000 ordered pairs and all ordered triples are evaluated against the (type,bytes) model. layers phase: Ethernet/IPv4|IPv6/TCP|UDP|SCTP|UDPLite|RUDP packets built byte-by-byte by the harness (addresses known), decoded eagerly and lazily, forward and with addresses swapped, plus FDDI/LinuxSLL/PPP and parser-reused layers. distinct_nontrivial = distinct (type,bytes) endpoints + distinct packets (by content hash); every generated case is non-trivial by construction (no empty pools).",
+			Rule:        "laws phase: per round a pool of 200 endpoints over 13 endpoint types (registered + unregistered, negative, >32bit) with byte strings of length 0..16 generated to share prefixes, differ only in length / trailing zeros / one bit / type; all 40 000 ordered pairs and all ordered triples are evaluated against the (type,bytes) model. layers phase: Ethernet/IPv4|IPv6/TCP|UDP|SCTP|UDPLite|RUDP packets built byte-by-byte by the harness (addresses known; one packet in four uses structured addresses: IPv4-mapped / IPv4-compatible / unspecified / loopback / multicast / all-ones IPv6, zero and broadcast IPv4 and MAC, ports 0/65535/255/256, on either side or both), decoded eagerly and lazily, forward and with addresses swapped, plus FDDI/LinuxSLL/PPP and parser-reused layers. distinct_nontrivial = distinct (type,bytes) endpoints + distinct packets (by content hash); every generated case is non-trivial by construction (no empty pools).",
 			Assumptions: []string{"endpoint pools and packets are PRNG generated; 'all pairs/triples' is exhaustive only within each pool"},
 			Phases: []vlib.Phase{
 				{Name: "laws", Bin: "vchild", Quick: 4, Thorough: 16},
@@ -159,7 +159,7 @@ func init() {
 	add(Spec{
 		PropSpec: vlib.PropSpec{
 			ID: "C16", Level: "exploration",
-			Rule:        "Scripted data sources (copying, and zero-copy ones that really reuse one buffer and overwrite it on every read) replay PRNG histories of 5..300 items (a 2500-item tier overflows the 1000-slot channel): packets with unique ids (caplen <= len, snapped in 1 of 4), timeouts (net.Error), transient errors, and a terminal error out of {EOF, ErrUnexpectedEOF, ErrNoProgress, ErrClosedPipe, ErrShortBuffer, EBADF, 'use of closed file', wrapped EOF}; decode options Lazy/NoCopy PRNG. pull phase: NextPacket results must mirror the script item by item (errors surfaced as-is, ids in order, CaptureInfo equal, Truncated == caplen<len or decoder-detected). channel phase: ids received from Packets() == the script's packets in order, once; channel closed after the terminal error and not before, no read after it; slow and fast consumers; zero-copy source + NoCopy must be refused. cancel phase: PacketsCtx cancelled at every script position (enumerated modulo the script length), both between reads and while a read is blocked inside the source: at most one source read may start after cancel() returned and the channel must get closed (goroutine exit), decided with a goroutine snapshot; no packetsToChannel goroutine may be left at the end. Every delivered packet's signature is recomputed after the whole script ran (not altered by later reads). All phases under the race detector. Non-trivial = every script (>= 5 items, >= 1 packet); distinct by (case, batch).",
+			Rule:        "Scripted data sources (copying, and zero-copy ones that really reuse one buffer and overwrite it on every read) replay PRNG histories of 5..300 items (a 2500-item tier overflows the 1000-slot channel): packets with unique ids (caplen <= len, snapped in 1 of 4), timeouts (net.Error), transient errors, and a terminal error out of {EOF, ErrUnexpectedEOF, ErrNoProgress, ErrClosedPipe, ErrShortBuffer, EBADF, 'use of closed file', wrapped EOF}; decode options Lazy/NoCopy PRNG. pull phase: NextPacket results must mirror the script item by item (errors surfaced as-is, ids in order, CaptureInfo equal, Truncated == caplen<len or decoder-detected). channel phase: ids received from Packets() == the script's packets in order, once; channel closed after the terminal error and not before, no read after it; slow and fast consumers; zero-copy source + NoCopy must be refused. cancel phase: PacketsCtx cancelled at every script position (enumerated modulo the script length), both between reads and while a read is blocked inside the source: at most one source read may start after cancel() returned and the channel must get closed (goroutine exit), decided with a goroutine snapshot; stopped consumer: 1001..1040 packets, the consumer takes 0-2 and never receives again, the context is cancelled once the channel is full - the background goroutine must disappear although nobody receives, and the buffered packets must still be the next ones in order followed by the close; no packetsToChannel goroutine may be left at the end. Every delivered packet's signature is recomputed after the whole script ran (not altered by later reads). All phases under the race detector. Non-trivial = every script (>= 5 items, >= 1 packet); distinct by (case, batch).",
 			Assumptions: []string{"the 5 ms retry sleeps of packetsToChannel bound throughput: scripts contain <= 12 timeouts/transient errors", "a zero-copy source with NoCopy on the pull interface aliases by design and is excluded from the not-altered check"},
 			Phases: []vlib.Phase{
 				{Name: "pull", Bin: "vchild", Race: true, Quick: 8, Thorough: 16},
@@ -176,7 +176,7 @@ func init() {
 	add(Spec{
 		PropSpec: vlib.PropSpec{
 			ID: "C14", Level: "fault_enumeration",
-			Rule:        "Files are produced by the library's writers from PRNG packet sequences (0..9 packets; data 0..120 bytes, a 1400..1600 tier, lengths not multiple of 4; caplen <= len; timestamps over the representable range incl. 0 / 999 999 999 ns / sub-microsecond): classic pcap us and ns (snaplen = max caplen, larger, 262144, or 0; 5 link types) and pcapng (1..4 interfaces added while writing, same or mixed link types, names/comments/descriptions/filters/OS/tsoffset/snaplen, section info, per-packet comments incl. empty strings and every length mod 4, flags, hashes, drop count, packet id, queue, verdicts, interface statistics blocks in between); the writer-side log records the file offset after each flushed packet. roundtrip phase: read back with ReadPacketData, ReadPacketDataWithOptions and ZeroCopyReadPacketData and compare data, lengths, interface / link type, options, timestamps to file resolution, section and interface descriptions; must end with io.EOF. truncate phase (crash-point enumeration): for every generated file (<= 6 KiB) and every read API, EVERY byte offset k in 0..len is cut and read: the packets returned before the first error must be exactly those whose end offset <= k, equal to the full-file read, and the terminating error (constructor or read) must satisfy errors.Is(io.EOF) or errors.Is(io.ErrUnexpectedEOF). libpcap phase: the same writers' files (classic us/ns, single-link-type pcapng) are read with pcap.OpenOffline and compared (data, caplen, len, timestamp to the microsecond, link type). Non-trivial = file with >= 3 packets and (per-packet options or a data length not multiple of 4); distinct by file content hash.",
+			Rule:        "Files are produced by the library's writers from PRNG packet sequences (0..9 packets; data 0..120 bytes, a 1400..1600 tier, lengths not multiple of 4; caplen <= len; timestamps over the representable range incl. 0 / 999 999 999 ns / sub-microsecond): classic pcap us and ns (snaplen = max caplen, larger, 262144, or 0; 5 link types) and pcapng (1..4 interfaces added while writing, same or mixed link types, names/comments/descriptions/filters/OS/tsoffset/snaplen, section info, per-packet comments incl. empty strings and every length mod 4, flags, hashes, drop count, packet id, queue, verdicts, interface statistics blocks in between); the writer-side log records the file offset after each flushed packet. roundtrip phase: read back with ReadPacketData, ReadPacketDataWithOptions and ZeroCopyReadPacketData and compare data, lengths, interface / link type, options, timestamps to file resolution, section and interface descriptions; must end with io.EOF. truncate phase (crash-point enumeration): for every generated file (<= 6 KiB) and every read API, EVERY byte offset k in 0..len is cut and read: the packets returned before the first error must be exactly those whose end offset <= k, equal to the full-file read, and the terminating error (constructor or read) must satisfy errors.Is(io.EOF) or errors.Is(io.ErrUnexpectedEOF). libpcap phase: the same writers' files (classic us/ns, single-link-type pcapng) are read with pcap.OpenOffline and compared (data, caplen, len, timestamp to the microsecond, link type). Non-trivial = file with >= 3 packets and (per-packet options or a data length not multiple of 4); distinct by file content hash. Results of the copying read calls are kept as returned until the whole file has been read (only zero-copy results are copied at once), so a copying call that hands out reader-owned memory shows up as an altered earlier packet.",
 			Assumptions: []string{"generator respects the formats' own preconditions: caplen <= len, caplen <= snaplen when snaplen != 0, 0 <= Unix time < 2^32 s (classic), 1970..2262 (pcapng), strings < 64 KiB", "crash points are enumerated exhaustively per file; files are sampled", "libpcap (system library) is the independent reader of the cross-check"},
 			Phases: []vlib.Phase{
 				{Name: "roundtrip", Bin: "vchild", Quick: 16, Thorough: 16},
@@ -207,11 +207,11 @@ func init() {
 		Technique: "runtime monitoring: structure-aware corruption + crash/CPU/allocation monitors, differential over stream chunkings, exhaustive I/O fault-position injection",
 		DesignRef: "DESIGN.md §3 C15",
 	})
-	decodeCorpus := "Corpus engine: every registered layer type (enumerated at run time) x inputs derived from (1) fixtures harvested from the repository itself - every []byte literal of the *_test.go files (go/parser) and every packet of the capture files under /repo, each decoded once so that the suffix starting at every layer becomes a seed for that layer's type - (2) packets of the core stacks built byte by byte (Ethernet/Dot1Q/IPv4+options/IPv6+hop-by-hop/TCP with every option kind incl. the 9 MPTCP subtypes/UDP/DNS/ICMPv4/ICMPv6/GRE/SCTP/VXLAN/ARP) and (3) mutators: every prefix length, bit flips, byte substitutions {0,1,0x7f,0x80,0xfe,0xff}, length-looking byte +-{1,2,4,8}, 16/32-bit boundary values in both byte orders, splices, block repeats, extensions, double mutations, plus all-0x00/0xff and random strings."
+	decodeCorpus := "Corpus engine: every registered layer type (enumerated at run time) x inputs derived from (1) fixtures harvested from the repository itself - every []byte and hex-string literal of the *_test.go files (go/parser) and every packet of the capture files under /repo (per-interface link type), each decoded once so that the suffix starting at every layer becomes a seed for that layer's type; literals offered to every type and ranked by how far they decode; a fixed-PRNG search and a hand-made table (SCTP chunk packets, CTP, DHCPv6, a DNS message per record type, pktap) for types the fixtures never reach - (2) packets of the core stacks built byte by byte (Ethernet/Dot1Q/IPv4+options/IPv6+hop-by-hop/TCP with every option kind incl. the 9 MPTCP subtypes/UDP/DNS/ICMPv4/ICMPv6/GRE/SCTP/VXLAN/ARP) and (3) mutators: every prefix length, bit flips, byte substitutions {0,1,0x7f,0x80,0xfe,0xff}, length-looking byte +-{1,2,4,8}, 16/32-bit boundary values in both byte orders, splices, block repeats, extensions, grow-region (a length byte/word and the region it covers grown together), double mutations, plus all-0x00/0xff and random strings; deterministic structure-aware variants per seed: tail stretched by k bytes with the 1..5 outermost covering length fields increased by k, one covering field +-k, regions cut to 0..3 bytes with their length field adjusted, and a single-byte sweep over 12 values incl. text separators."
 	add(Spec{
 		PropSpec: vlib.PropSpec{
 			ID: "C19", Level: "exploration",
-			Rule:        decodeCorpus + " Each (type, input) goes through three unrecovered entry points: NewPacket with SkipDecodeRecovery (Lazy x DecodeStreamsAsDatagrams) + Layers(); DecodeFromBytes of every type implementing DecodingLayer (discovered by reflection), on a fresh and on a previously used object, followed by NextLayerType/CanDecode/LayerPayload; a DecodingLayerParser over all known decoding layers with IgnorePanic. Any panic, fatal error or CPU/heap runaway is a violation; a returned error is success. Non-trivial = input at least as long as the shortest input on which that type's DecodeFromBytes returned nil in this run; distinct by (type, input hash).",
+			Rule:        decodeCorpus + " Each (type, input) goes through three unrecovered entry points: NewPacket with SkipDecodeRecovery (Lazy x DecodeStreamsAsDatagrams) + Layers(); DecodeFromBytes of every exported struct type implementing DecodingLayer (constructors generated from the source tree, filed under each layer type it can decode - so implementations that share a layer type or that no packet decoder constructs are included), on a fresh and on a previously used object, followed by NextLayerType/CanDecode/LayerPayload; a DecodingLayerParser over all known decoding layers with IgnorePanic. Any panic, fatal error or CPU/heap runaway is a violation; a returned error is success. Non-trivial = input at least as long as the shortest input on which that type's DecodeFromBytes returned nil in this run; distinct by (type, input hash).",
 			Assumptions: []string{"checkptr instrumentation is on (-gcflags=all=-d=checkptr)", "types for which no input ever decoded successfully are listed in the evidence as never entered"},
 			Phases: []vlib.Phase{
 				{Name: "norecover", Bin: "vchild", Quick: 16, Thorough: 16},
@@ -226,7 +226,7 @@ func init() {
 	add(Spec{
 		PropSpec: vlib.PropSpec{
 			ID: "C01", Level: "exploration",
-			Rule:        decodeCorpus + " total phase: each (type, input) is decoded under all 16 combinations of Lazy/NoCopy/Pool/DecodeStreamsAsDatagrams (recovery on), followed by a PRNG-ordered program of read-only uses with repeats (Layers, Layer of own and foreign types, LayerClass over 7 classes, Link/Network/Transport/Application/ErrorLayer, Metadata, Data, VerifyChecksums, flows, per layer LayerContents/Payload, VerifyChecksum; on 3 of the 16 option sets also String, Dump, LayerString/LayerDump/LayerGoString and %v/%+v of every layer), a 64 KiB tier, and every prefix of one seed per type. Oracles: no panic / fatal error / CPU-heap runaway; error-layer bookkeeping (every DecodeFailure or ErrorLayer-implementing layer is last, is what ErrorLayer() returns, ErrorLayer() is an element of Layers()); two independent could-not-decode witnesses (the same input panics with recovery off; DecodeFromBytes of the first layer returns an error) imply a non-nil error layer; error-ness agrees across Lazy/NoCopy/Pool for non-empty inputs. shapes phase: structured variants of 3/30 seeds per type - every region announced by a length byte or word cut down to 0..3 bytes (kept, zero, 0xff or small-type content) with the field adjusted, and the tail-stretch variants - each through one eager and one lazy packet with every renderer and accessor (the tiny-but-consistent options and identifiers that String methods meet for the first time). wellformed phase: packets built byte by byte with correct lengths and checksums must decode with a nil error layer and no truncation flag under all 16 option sets. Non-trivial = packet with >= 2 layers or an error layer; distinct by (type, input hash).",
+			Rule:        decodeCorpus + " total phase: each (type, input) is decoded under all 16 combinations of Lazy/NoCopy/Pool/DecodeStreamsAsDatagrams (recovery on), followed by a PRNG-ordered program of read-only uses with repeats (Layers, Layer of own and foreign types, LayerClass over 7 classes, Link/Network/Transport/Application/ErrorLayer, Metadata, Data, VerifyChecksums, flows, per layer LayerContents/Payload, VerifyChecksum; on 3 of the 16 option sets also String, Dump, LayerString/LayerDump/LayerGoString and %v/%+v of every layer), a 64 KiB tier, every prefix of one seed per type and the tail-stretch variants of 5/60 seeds; for every lazy option set ErrorLayer() is also asked first on a fresh packet and must agree with the fully decoded one. Oracles: no panic / fatal error / CPU-heap runaway; error-layer bookkeeping (every DecodeFailure or ErrorLayer-implementing layer is last, is what ErrorLayer() returns, ErrorLayer() is an element of Layers()); two independent could-not-decode witnesses (the same input panics with recovery off; DecodeFromBytes of the first layer returns an error) imply a non-nil error layer; error-ness agrees across Lazy/NoCopy/Pool for non-empty inputs. shapes phase: structured variants of 3/30 seeds per type - every region announced by a length byte or word cut down to 0..3 bytes (kept, zero, 0xff or small-type content) with the field adjusted, and the tail-stretch variants - each through one eager and one lazy packet with every renderer and accessor (the tiny-but-consistent options and identifiers that String methods meet for the first time). wellformed phase: packets built byte by byte with correct lengths and checksums must decode with a nil error layer and no truncation flag under all 16 option sets. Non-trivial = packet with >= 2 layers or an error layer; distinct by (type, input hash).",
 			Assumptions: []string{"'everything decoded => error layer nil' is asserted only where it is known by construction (well-formed constructed packets)", "checkptr instrumentation is on"},
 			Phases: []vlib.Phase{
 				{Name: "total", Bin: "vchild", Quick: 16, Thorough: 16},
@@ -259,7 +259,7 @@ func init() {
 	add(Spec{
 		PropSpec: vlib.PropSpec{
 			ID: "C03", Level: "exploration",
-			Rule:        decodeCorpus + " For every non-empty (type, input) and NoCopy/DecodeStreamsAsDatagrams on/off, accessor programs are run side by side on the eager packet and on a fresh lazy packet: for every own layer type the program that starts with Layer(that type); every special-layer accessor as first call; every ordered pair of Layer(own type) calls for packets of <= 5 layers; and PRNG programs of 1..12 calls (with immediate repeats) over {Layer(own/foreign type), LayerClass(7 classes), LinkLayer, NetworkLayer, TransportLayer, ApplicationLayer, ErrorLayer, Layers, String, Dump}. After every step the results are compared (nil-ness, layer type, all field values, contents, payload; whole list for Layers; text for String/Dump), and at the end the full packet signatures incl. truncation flag and String(). Non-trivial = packet with >= 3 layers and a program whose first call does not request all layers; distinct by (type, input, program) hash.",
+			Rule:        decodeCorpus + " For every non-empty (type, input) and NoCopy/DecodeStreamsAsDatagrams on/off, accessor programs are run side by side on the eager packet and on a fresh lazy packet: for every own layer type the program that starts with Layer(that type); every special-layer accessor as first call; an every-prefix tier (all prefixes of 4/40 seeds per type, each first-call accessor - link, network, transport, application, error layer, Layer of every own type, every class - asked first); every ordered pair of Layer(own type) calls for packets of <= 5 layers; and PRNG programs of 1..12 calls (with immediate repeats) over {Layer(own/foreign type), LayerClass(7 classes), LinkLayer, NetworkLayer, TransportLayer, ApplicationLayer, ErrorLayer, Layers, String, Dump}. After every step the results are compared (nil-ness, layer type, all field values, contents, payload; whole list for Layers; text for String/Dump), and at the end the full packet signatures incl. truncation flag and String(). Non-trivial = packet with >= 3 layers and a program whose first call does not request all layers; distinct by (type, input, program) hash.",
 			Assumptions: []string{"Dump() is not compared when the packet ends in a DecodeFailure: its text contains the goroutine stack of the recovered panic"},
 			Phases: []vlib.Phase{
 				{Name: "lazy", Bin: "vchild", Quick: 16, Thorough: 16},
@@ -306,7 +306,7 @@ func init() {
 	add(Spec{
 		PropSpec: vlib.PropSpec{
 			ID: "C06", Level: "exploration",
-			Rule:        "roundtrip phase: layer values x = every serializable layer of every error-free packet obtained by decoding corpus inputs (fixtures, capture files, constructed packets, their mutations) as each registered layer type; payload P = the layer's decoded payload. b1 = bytes(x, FixLengths+ComputeChecksums) must decode as x's type with no error, no truncation flag raised by that layer's decoder, and payload P; the decoded layer L1 must equal x (as the serializer left it after fixing its length and checksum fields in place) in every exported field at every depth, lists in order, except fields that are derived (name contains len/length/size/count/num/checksum/crc/fcs/padding/pad/ihl/dataoffset/offset/reserved; raw RDATA copies of DNS records) - those are covered by the fixpoint: L1 written again must give exactly b1 and decode to the same field values. Layer types without a decoder of their own (SCTP chunks) are covered inside their parent by the stacks phase. stacks phase: constructed Ethernet stacks (VLAN, IPv4 with options, IPv6 with extension headers, TCP with options, UDP, ICMPv4/6 incl. NDP options, DNS, ARP, GRE, VXLAN, SCTP ...) are decoded, written with SerializeLayers, decoded (same layer types, same fields, no truncation), and SerializePacket of that packet must reproduce the bytes. built phase: stacks built from in-range field values through the public struct fields (Ethernet, 0-2 VLAN tags, IPv4 with aligned option lists / IPv6 with hop-by-hop and destination headers carrying 1-4 TLV options of 0..13 data bytes so that every residue of the header length mod 8 occurs, routing header; GRE with checksum/key/sequence/routing/ack combinations around a second IP header; TCP with aligned option lists, UDP, DNS with A/AAAA/NS/CNAME/PTR/MX/SRV/SOA/TXT records, ICMPv4, ICMPv6 echo and the four NDP messages with 0-4 options, VXLAN, SCTP data, ARP, unknown IP protocol) over payloads of 0, 1, 2, 3, 17, 45..47, 255, 1471..1473, 9001, 65000 and random sizes and IPv6/TCP jumbograms of 65536, 65537, 70001 bytes: SerializeLayers must succeed, the bytes must decode without error or truncation flag to the same layer types, every built layer must equal the decoded layer in all exported fields except derived ones (alignment pad options excluded), the payload must come back, and SerializePacket of the decoded packet must reproduce the bytes. Non-trivial = round trip with a non-empty payload; distinct by (type, fields, payload) hash.",
+			Rule:        "roundtrip phase: layer values x = every serializable layer of every error-free packet obtained by decoding corpus inputs (fixtures, capture files, constructed packets, their mutations) as each registered layer type; payload P = the layer's decoded payload. b1 = bytes(x, FixLengths+ComputeChecksums) must decode as x's type with no error, no truncation flag raised by that layer's decoder, and payload P; the decoded layer L1 must equal x (as the serializer left it after fixing its length and checksum fields in place) in every exported field at every depth, lists in order, except fields that are derived (name contains len/length/size/count/num/checksum/crc/fcs/padding/pad/ihl/dataoffset/offset/reserved; raw RDATA copies of DNS records) - those are covered by the fixpoint: L1 written again must give exactly b1 and decode to the same field values. Layer types without a decoder of their own (SCTP chunks) are covered inside their parent by the stacks phase. stacks phase: constructed Ethernet stacks (VLAN, IPv4 with options, IPv6 with extension headers, TCP with options, UDP, ICMPv4/6 incl. NDP options, DNS, ARP, GRE, VXLAN, SCTP ...) are decoded, written with SerializeLayers, decoded (same layer types, same fields, no truncation), and SerializePacket of that packet must reproduce the bytes. built phase: stacks built from in-range field values through the public struct fields (Ethernet, 0-2 VLAN tags, IPv4 with aligned option lists / IPv6 with hop-by-hop and destination headers carrying 1-4 TLV options of 0..13 data bytes so that every residue of the header length mod 8 occurs, routing header; GRE with checksum/key/sequence/routing/ack combinations around a second IP header; TCP with aligned option lists, UDP, DNS with A/AAAA/NS/CNAME/PTR/MX/SRV/SOA/TXT records, ICMPv4, ICMPv6 echo and the four NDP messages with 0-4 options, VXLAN, SCTP data, ARP, unknown IP protocol) over payloads of 0, 1, 2, 3, 17, 45..47, 255, 1471..1473, 9001, 65000 and random sizes and IPv6/TCP jumbograms of 65536, 65537, 70001 bytes: SerializeLayers must succeed, the bytes must decode without error or truncation flag to the same layer types, every built layer must equal the decoded layer in all exported fields except derived ones (alignment pad options excluded), the payload must come back, and SerializePacket of the decoded packet must reproduce the bytes. Non-trivial = round trip with a non-empty payload; distinct by (type, fields, payload) hash. The built phase makes every eighth stack a boundary stack (plain Ethernet/IPv4|IPv6/UDP|TCP|ICMPv4 with a payload within 10 bytes of the largest size the length fields express; beyond the IPv4 limit the writer must refuse, beyond the IPv6 limit the packet becomes a jumbogram); the roundtrip phase adds a single-byte sweep (every position of 3/40 seeds per type x 12 values incl. '.', backslash, '/', ':', '@', 0xc0) because values such as a DNS label containing a dot arise only from decoding.",
 			Assumptions: []string{"field comparison covers exported fields; Contents/Payload of the embedded BaseLayer are compared as bytes through the round trip, not as struct fields", "transport checksums use the enclosing IPv4/IPv6 layer of the source packet as pseudo-header", "an Ethernet payload shorter than 46 bytes comes back zero-padded to 46 bytes (minimum frame size; the frame carries no length), and a stack shorter than 60 bytes decodes with that padding as a trailing all-zero Payload layer: both are accepted", "a serializer that returns an error for a decoded value is counted (part_B_serializer_returned_error), not flagged: the statement is about written layers", "layer values taken from packets that decoded with the truncation flag are not used (a jumbo length without its data is inconsistent by construction)", "the payload of a jumbo IPv6 header is what follows its hop-by-hop header (LayerPayload includes that header, pinned by TestIPv6JumbogramDecode)"},
 			Phases: []vlib.Phase{
 				{Name: "roundtrip", Bin: "vchild", Quick: 16, Thorough: 16},
